@@ -564,6 +564,9 @@ namespace bxdecay0 {
         break;
       }
     }
+    if (!parsed_energy_sampling_header or (unsigned int)e2_pdf_count != _pimpl_->tab_prob.nsamples) {
+      throw std::logic_error("bxdecay0::dbd_gA::_load_tabulated_pdf_: Missing energy sampling header or p.d.f. rows!");
+    }
     if (debug) {
       std::cerr << "[debug] bxdecay0::dbd_gA::_load_tabulated_pdf_: Energy sampling step = "
                 << _pimpl_->tab_prob.energy_step << " MeV" << std::endl;
